@@ -6,7 +6,7 @@
    record b: [log b] what the callback was invoked with, [regat b] the number of changes before its
    registration, [initv b] the value read at registration, [gotinit b] whether the initial callback ran. *)
 From Coq Require Import NArith List Bool Arith.
-From Verif.C13_Reactive Require Import Model Inv Proofs.
+From Verif.C13_Reactive Require Import Model Inv Proofs Api ApiProofs.
 Import ListNotations.
 
 (* ---------- reactive.Variable[V] for any comparable V and any transformation function (Event: V = bool, || ) ---------- *)
@@ -56,6 +56,58 @@ Section Variable_.
     cbs (v_run V eqV zeroV tr sch (init V (V * V) (V -> V) V zeroV)) c = Some b ->
     late b = false /\ (unsub_ret b = true -> incb b = 0).
   Proof. exact (var_after_unsub V eqV zeroV tr eqV_spec). Qed.
+
+  (* ---- the whole exported write / subscribe API (Api.v) ----
+     A schedule over [vcall] lets every thread call Set, Compute, Init, DefaultTo, ToggleValue, the reset closure and
+     the Set issued by an InheritFrom callback, in any order and interleaving - in particular Init on a variable that
+     already has subscribers.  Each of them is the writer of the model with the function the code hands to Compute
+     ([vcall_fun]), so the three log theorems hold for histories that contain them. *)
+  Theorem C13_var_api_log_shape : forall (sch : list (nat * option (op (vcall V)))) c b,
+    let s := v_run V eqV zeroV tr (api_sch V eqV zeroV sch) (init V (V * V) (V -> V) V zeroV) in
+    cbs s c = Some b ->
+    log b = initpart V (V * V) (v_initD V zeroV) b ++ firstn (ndel b) (skipn (regat b) (hist s))
+    /\ regat b + ndel b <= length (hist s)
+    /\ initv b = fold_left (v_apply V) (firstn (regat b) (hist s)) zeroV
+    /\ val s = fold_left (v_apply V) (hist s) zeroV
+    /\ (returned b = true -> gotinit b = false -> initv b = zeroV).
+  Proof. exact (var_api_log_shape V eqV zeroV tr eqV_spec). Qed.
+
+  Theorem C13_var_api_complete : forall (sch : list (nat * option (op (vcall V)))) c b,
+    let s := v_run V eqV zeroV tr (api_sch V eqV zeroV sch) (init V (V * V) (V -> V) V zeroV) in
+    quiescent _ _ _ _ s -> cbs s c = Some b -> unsubd b = false ->
+    returned b = true /\ regat b + ndel b = length (hist s)
+    /\ log b = initpart V (V * V) (v_initD V zeroV) b ++ skipn (regat b) (hist s)
+    /\ fold_log V (V * V) (v_apply V) zeroV (log b) = val s.
+  Proof. exact (var_api_complete V eqV zeroV tr eqV_spec). Qed.
+
+  Theorem C13_var_api_chain : forall (sch : list (nat * option (op (vcall V)))),
+    chain V (V * V) (v_apply V) (v_legal V) zeroV
+          (hist (v_run V eqV zeroV tr (api_sch V eqV zeroV sch) (init V (V * V) (V -> V) V zeroV))).
+  Proof. exact (var_api_chain V eqV zeroV tr eqV_spec). Qed.
+
+  (* OnUpdateOnce (Subscribe c false; [cond] = the optional condition): in every reachable state the user callback has
+     run at most once, and then with the first accepted element of [state at subscription] ++ the changes after it. *)
+  Theorem C13_var_once_first_accepted : forall (sch : list (nat * option (op (vcall V)))) c b cond,
+    let s := v_run V eqV zeroV tr (api_sch V eqV zeroV sch) (init V (V * V) (V -> V) V zeroV) in
+    cbs s c = Some b ->
+    filter (is_user V) (once_obs V cond (log b)) =
+    match find (once_accepts V cond)
+               (initpart V (V * V) (v_initD V zeroV) b ++ firstn (ndel b) (skipn (regat b) (hist s))) with
+    | Some d => [EUser (fst d) (snd d)] | None => [] end.
+  Proof. exact (var_once_first_accepted V eqV zeroV tr eqV_spec). Qed.
+
+  (* OnUpdateWithContext / WithValue / WithNonEmptyValue: setups and teardowns are bracketed (at most one context is
+     active, each teardown is for the value that was set up), whatever the log. *)
+  Theorem C13_var_contexts_bracketed : forall showcb acc l fin a,
+    brk V eqV a (ctx_obs V showcb acc a l fin) = true.
+  Proof. intros. apply (ctx_obs_bracketed V eqV eqV_spec). Qed.
+
+  (* WithValue when no call is in progress and the teardown was not called: the active setup is for the final value. *)
+  Theorem C13_var_withvalue_final : forall (sch : list (nat * option (op (vcall V)))) c b acc,
+    let s := v_run V eqV zeroV tr (api_sch V eqV zeroV sch) (init V (V * V) (V -> V) V zeroV) in
+    quiescent _ _ _ _ s -> cbs s c = Some b -> unsubd b = false -> log b <> [] ->
+    ctx_active V acc None (log b) = if acc (val s) then Some (val s) else None.
+  Proof. exact (var_withvalue_final V eqV zeroV tr eqV_spec). Qed.
 End Variable_.
 
 (* ---------- reactive.Set (finite sets as bit masks; mutations = (added, deleted)) ---------- *)
@@ -83,6 +135,14 @@ Theorem C13_set_true_diff : forall s0 sch,
   chain N (N * N) s_apply s_legal_p s0 (hist (s_run sch (init N (N * N) sop (N * N) s0))).
 Proof. exact set_chain. Qed.
 
+(* Set.WithElements when no call is in progress and the teardown was not called: the elements whose setup is active
+   are exactly the contents that satisfy the condition [cm]. *)
+Theorem C13_set_withelements_final : forall s0 sch c b cm,
+  let s := s_run sch (init N (N * N) sop (N * N) s0) in
+  quiescent _ _ _ _ s -> cbs s c = Some b -> unsubd b = false ->
+  wel_active cm 0%N (log b) = N.land (val s) cm.
+Proof. exact set_withelements_final. Qed.
+
 Theorem C13_set_serial_callbacks : forall s0 sch c b,
   cbs (s_run sch (init N (N * N) sop (N * N) s0)) c = Some b -> overlap b = false /\ incb b <= 1.
 Proof. exact set_serial. Qed.
@@ -98,6 +158,18 @@ Theorem C13_refuted_replace_pinned :
   val s = 12%N /\ option_map (fun b => fold_log N (N * N) s_apply 0%N (log b)) (cbs s 0) = Some 8%N.
 Proof. exact refuted_replace_pinned_run. Qed.
 
+(* Finding reactive-set-decode-silent (code unchanged): Set.Decode (set_impl.go:108) inserts the decoded elements under
+   the value mutex without the write path.  On a set that has a subscriber the property is false: {0,1}, one subscriber,
+   Decode of the encoding of {1,2} - contents {0,1,2}, no call in progress, the subscriber's fold is {0,1}.
+   The theorems above are about schedules of Apply/Compute/Replace/OnUpdate/unsubscribe, i.e. under the guard
+   "Decode is only used on a set nobody has subscribed to". *)
+Theorem C13_refuted_set_decode_live :
+  let s := s_run decode_live_schedule (init N (N * N) sop (N * N) 3%N) in
+  exists s', decode_step s 6%N = Some s'
+    /\ (forall t, t < 4 -> thr s' t = Idle) /\ val s' = 7%N
+    /\ option_map (fun b => (fold_log N (N * N) s_apply 0%N (log b), unsubd b, returned b)) (cbs s' 0) = Some (3%N, false, true).
+Proof. exact refuted_set_decode_live. Qed.
+
 (* Non-vacuity: an interleaved run (registration racing with a Replace, a later Apply, an unsubscribe) reaches a
    quiescent state with non-trivial logs; the same schedule after the fix folds to the contents. *)
 Example C13_nonvacuous_run :
@@ -106,6 +178,13 @@ Example C13_nonvacuous_run :
   /\ option_map (fun b => (log b, regat b, unsubd b)) (cbs s 0) = Some ([(6, 0); (8, 2); (1, 4)]%N, 0, false)
   /\ option_map (fun b => (log b, regat b, unsubd b)) (cbs s 1) = Some ([(12, 0); (1, 4)]%N, 1, true).
 Proof. exact demo_run. Qed.
+
+(* Non-vacuity of the API theorems: Init on a live variable (subscriber registered between Init 1 and Set 2; Init 7 last). *)
+Example C13_nonvacuous_init_on_live_variable :
+  let s := v_run N N.eqb 0%N (fun _ n => n) (api_sch N N.eqb 0%N init_live_schedule) (init N (N * N) (N -> N) N 0%N) in
+  thr s 0 = Idle /\ thr s 1 = Idle /\ val s = 7%N /\ hist s = [(0, 1); (1, 2); (2, 7)]%N
+  /\ option_map (fun b => (log b, unsubd b)) (cbs s 0) = Some ([(0, 1); (1, 2); (2, 7)]%N, false).
+Proof. exact init_live_run. Qed.
 
 Example C13_regression_replace_fixed :
   let s := s_run d13_schedule (init N (N * N) sop (N * N) 6%N) in
@@ -118,9 +197,17 @@ Print Assumptions C13_var_chain.
 Print Assumptions C13_var_complete.
 Print Assumptions C13_var_serial_callbacks.
 Print Assumptions C13_var_after_unsub.
+Print Assumptions C13_var_api_log_shape.
+Print Assumptions C13_var_api_complete.
+Print Assumptions C13_var_api_chain.
+Print Assumptions C13_var_once_first_accepted.
+Print Assumptions C13_var_contexts_bracketed.
+Print Assumptions C13_var_withvalue_final.
+Print Assumptions C13_set_withelements_final.
 Print Assumptions C13_set_log_shape.
 Print Assumptions C13_set_fold.
 Print Assumptions C13_set_true_diff.
 Print Assumptions C13_set_serial_callbacks.
 Print Assumptions C13_set_after_unsub.
 Print Assumptions C13_refuted_replace_pinned.
+Print Assumptions C13_refuted_set_decode_live.
